@@ -10,6 +10,7 @@ import (
 	"github.com/enbility/ship-go/logging"
 	"github.com/enbility/spine-go/api"
 	"github.com/enbility/spine-go/model"
+	"github.com/enbility/spine-go/util"
 )
 
 type DeviceRemote struct {
@@ -120,6 +121,10 @@ func (d *DeviceRemote) Entities() []api.EntityRemoteInterface {
 
 // Return the feature for a given address
 func (d *DeviceRemote) FeatureByAddress(address *model.FeatureAddressType) api.FeatureRemoteInterface {
+	if address == nil {
+		return nil
+	}
+
 	entity := d.Entity(address.Entity)
 	if entity != nil {
 		return entity.FeatureOfAddress(address.Feature)
@@ -211,6 +216,10 @@ func (d *DeviceRemote) AddEntityAndFeatures(initialData bool, data *model.NodeMa
 
 		entity := d.Entity(entityAddress)
 		if entity == nil {
+			// an entity needs an address and a type
+			if len(entityAddress) == 0 || ei.Description.EntityType == nil {
+				return nil, errors.New("nodemanagement.replyDetailedDiscoveryData: invalid EntityInformation.Description")
+			}
 			entity = d.addNewEntity(*ei.Description.EntityType, entityAddress)
 			rEntites = append(rEntites, entity)
 		}
@@ -229,11 +238,21 @@ func (d *DeviceRemote) AddEntityAndFeatures(initialData bool, data *model.NodeMa
 		entity.RemoveAllFeatures()
 
 		for _, fi := range data.FeatureInformation {
+			if fi.Description == nil || fi.Description.FeatureAddress == nil {
+				continue
+			}
 			if reflect.DeepEqual(fi.Description.FeatureAddress.Entity, entityAddress) {
 				if f, ok := unmarshalFeature(entity, fi); ok {
 					entity.AddFeature(f)
 				}
 			}
+		}
+
+		// the device information entity always needs its NodeManagement feature,
+		// without it no further message of this device can be processed
+		if reflect.DeepEqual(entityAddress, DeviceInformationAddressEntity) &&
+			entity.FeatureOfAddress(util.Ptr(model.AddressFeatureType(NodeManagementFeatureId))) == nil {
+			entity.AddFeature(NewFeatureRemote(NodeManagementFeatureId, entity, model.FeatureTypeTypeNodeManagement, model.RoleTypeSpecial))
 		}
 	}
 
@@ -280,6 +299,12 @@ func unmarshalFeature(entity api.EntityRemoteInterface,
 		return nil, false
 	}
 
+	// address, type and role are required, the type has to be known
+	if fid.FeatureAddress == nil || fid.FeatureAddress.Feature == nil || fid.FeatureType == nil || fid.Role == nil ||
+		!isKnownFeatureType(*fid.FeatureType) {
+		return nil, false
+	}
+
 	result = NewFeatureRemote(uint(*fid.FeatureAddress.Feature), entity, *fid.FeatureType, *fid.Role)
 
 	result.SetDescription(fid.Description)
@@ -287,4 +312,15 @@ func unmarshalFeature(entity api.EntityRemoteInterface,
 	result.SetOperations(fid.SupportedFunction)
 
 	return result, true
+}
+
+// check if function data can be created for a feature type
+func isKnownFeatureType(featureType model.FeatureTypeType) (known bool) {
+	defer func() {
+		if recover() != nil {
+			known = false
+		}
+	}()
+
+	return len(CreateFunctionData[api.FunctionDataInterface](featureType)) > 0
 }
